@@ -292,6 +292,50 @@ def h_dispatch(only=None):
     return fn
 
 
+def h_overrides():
+    """Two options that write the same setting (or the same option given twice): the later one takes effect
+    completely -- the command line configures exactly what the later option alone configures in the slots the
+    two share, and what each alone configures elsewhere.  The later option also comes from a --config file."""
+    def fn(S):
+        opts = [o for o in option_table(S) if o[0] not in ("-hist", "-sort", "-type")]
+        pairs = [(a, b) for a in opts for b in opts if a[0] != b[0] and set(a[2]) & set(b[2])] + \
+                [(a, a) for a in opts if a[0] in ("-c", "-C", "-x", "-agg", "-b", "-Tagg")]
+        pi = S.choose("pair", len(pairs))
+        (n1, w1, s1_), (n2, w2, s2_) = pairs[pi]
+        via_config = bool(S.choose("second-from-config", 2))
+        tag = "%s then %s%s" % (n1, n2, " (config)" if via_config else "")
+        with driver_stubs(S) as rec0:
+            c0 = run_driver(BASE + w2)
+            s0 = snapshot(rec0)
+        with driver_stubs(S) as reca:
+            ca = run_driver(BASE + w1)
+            sa_ = snapshot(reca)
+        if via_config:
+            with driver_stubs(S, config_lines=[w2]) as rec1:
+                c1 = run_driver(BASE + w1 + ["--config", "my.cfg"])
+                s1 = snapshot(rec1)
+        else:
+            with driver_stubs(S) as rec1:
+                c1 = run_driver(BASE + w1 + w2)
+                s1 = snapshot(rec1)
+        S.prove("runs-to-the-output-action", c0 is None and c1 is None and ca is None and s0 is not None and s1 is not None and sa_ is not None, detail=tag)
+        if s0 is None or s1 is None or sa_ is None:
+            return
+        for k in sorted(set(s0) | set(s1)):
+            if k.startswith("pl.") and k[3:] in ("cmap",):
+                continue
+            if k == "data.clim":
+                a_, b_ = s1.get(k), s0.get(k)
+                S.prove("later-option-takes-effect-completely", (a_ is None) == (b_ is None) and (a_ is None or a_.fullname == b_.fullname), detail="%s/%s" % (tag, k))
+                continue
+            if k in s2_ or k not in s1_:
+                # a slot the later option writes, or one the earlier option does not touch: as with the later alone
+                S.prove("later-option-takes-effect-completely", equalish(S, s1.get(k, "<absent>"), s0.get(k, "<absent>")), detail="%s/%s" % (tag, k))
+            else:
+                S.prove("earlier-option-keeps-its-own-slots", equalish(S, s1.get(k, "<absent>"), sa_.get(k, "<absent>")), detail="%s/%s" % (tag, k))
+    return fn
+
+
 def h_config():
     """Arguments read through --config act exactly as if given inline."""
     def fn(S):
@@ -646,6 +690,7 @@ def harnesses(tier):
     return [
         Harness("dispatch", h_dispatch(), "one option at a time at 3 positions vs the baseline command line"),
         Harness("config", h_config(), "--config file vs inline arguments"),
+        Harness("overrides", h_overrides(), "two options writing the same setting: the later one takes effect completely"),
         Harness("vectors", h_vectors(10 if thorough else 6), "parse_numbers on symbolic decimal tokens"),
         Harness("dates", h_dates(10 if thorough else 6), "parse_dates across month / year / leap boundaries"),
         Harness("validation", h_validation(), "malformed and out-of-range arguments are rejected"),
